@@ -51,7 +51,8 @@ def cases(tier, seed):
 
 
 def _header(rows, cols, seed):
-    return wz.make_header("SIN", (150.0 + core.seed_shift(seed, 1, 20), -35.0), 30.0 / 3600, (rows, cols),
+    # 30 arcsec pixels, smaller for very tall images so that every row stays on the visible hemisphere of the projection
+    return wz.make_header("SIN", (150.0 + core.seed_shift(seed, 1, 20), -35.0), min(30.0 / 3600, 60.0 / rows), (rows, cols),
                           crpix=(cols / 2.0 + 0.5, rows / 3.0 + 0.25))
 
 
@@ -108,6 +109,8 @@ def _check_bands(fname, full, full_hdr, ctx, tag, ns, cube_index=0):
             err = max(np.max(np.abs(((ra_b - ra_f + 180) % 360) - 180) * np.cos(np.radians(dec_f))),
                       np.max(np.abs(dec_b - dec_f)))
             ctx.note_max("band_sky_err_deg", err)
+            if not np.all(np.isfinite(ra_f)):
+                raise AssertionError("harness: the reference WCS gives no sky position for a pixel of the full image (rows=%d)" % rows)
             if not err < 1e-9:
                 ctx.violation("band (%d,%d) of rows=%d: header maps its pixels %.3g deg away from the full image's" % (
                     i, n, rows, err), "wcs_" + sig)
